@@ -180,6 +180,12 @@ class Ops:
                 return t
         if self.entails(st, self.V.is_ref(sv.e), cheap=True):
             return "ref:object"
+        if any(not self.is_cheap(a) for a in st.pc):
+            for t in candidates:
+                if self.entails(st, self.is_type(sv.e, t), timeout=1000):
+                    return t
+            if self.entails(st, self.V.is_ref(sv.e), timeout=1000):
+                return "ref:object"
         return None
 
     def refcls(self, st, sv, options):
@@ -192,6 +198,10 @@ class Ops:
         for o in options:
             if self.entails(st, self.is_type(sv.e, "ref:" + o), cheap=True):
                 return o
+        if any(not self.is_cheap(a) for a in st.pc):
+            for o in options:
+                if self.entails(st, self.is_type(sv.e, "ref:" + o), timeout=1000):
+                    return o
         return None
 
     # ------------------------------------------------------------ truthiness
